@@ -36,7 +36,9 @@ Next == \/ sc.stage = 0 /\ \E sh \in Shapes, p1 \in Places : sc' = [stage |-> 1,
                ("digitdir" \in {sc.p1, p2, p3} => q) /\
                sc' = [stage |-> 2, fam |-> "shape", sh |-> sc.sh, f |-> ShapeOf(sc.sh, sc.p1, p2, p3, q, s)]
         \/ sc.stage = 0 /\ \E ft \in Faults, q \in BOOLEAN : sc' = [stage |-> 2, fam |-> "fault", fault |-> ft, quoted |-> q]
-        \/ sc.stage = 0 /\ \E p1 \in Places, q \in BOOLEAN, s \in Seps : sc' = [stage |-> 2, fam |-> "a2ml", place |-> p1, quoted |-> q, sep |-> s]
+        \/ sc.stage = 0 /\ \E p1 \in Places, q \in BOOLEAN, s \in Seps : sc' = [stage |-> 2, fam |-> "a2ml", place |-> p1, quoted |-> q, sep |-> s, nested |-> FALSE]
+        \* the A2ML block stands in an included file of another directory; the name inside it is relative to that file
+        \/ sc.stage = 0 /\ \E p1 \in Places \ {"same"}, q \in BOOLEAN : sc' = [stage |-> 2, fam |-> "a2ml", place |-> p1, quoted |-> q, sep |-> "/", nested |-> TRUE]
         \* the include file named by its absolute path
         \/ sc.stage = 0 /\ sc' = [stage |-> 2, fam |-> "shape", sh |-> "flat1", f |-> ShapeOf("flat1", "same", "same", "same", TRUE, "/"), abs |-> TRUE]
         \* include files with a comment between their elements (comments are module children of their own)
